@@ -423,6 +423,7 @@ func TestC16(t *testing.T) {
 		return "-"
 	}
 
+	tw := newTxWorld(s, out, gov)
 	proposer := helpers.GenAccAddress()
 	s.MintToken(proposer, sdk.NewCoin(fxtypes.DefaultDenom, sdkmath.NewInt(1e18).MulRaw(1e9)))
 
@@ -728,6 +729,36 @@ func TestC16(t *testing.T) {
 		// ---------------- raw store compare-and-set sequences, then proposals on the same scratch state
 		cur := casSeq(s, out, rng, gov, junk(rng))
 		propSeq(s, out, rng, gov, proposer, cur)
+		// ---------------- who has to have signed: signed transactions through runTx, MsgExec, governance proposals
+		{
+			var cases []txCase
+			pool := valid(rng)
+			if it%4 == 3 {
+				pool = append(pool, zeros()...)
+			}
+			for j := 0; j < 3; j++ {
+				m := pool[(it*3+j)%len(pool)]
+				setAuthority(m, gov)
+				tc := txCase{m: m, payloadOk: true, chain: chainOf(m), lists: nonEmptyLists(m)}
+				if v, ok := m.(sdk.HasValidateBasic); ok && v.ValidateBasic() != nil {
+					tc.payloadOk = false
+				}
+				if tc.payloadOk {
+					cctx, _ := s.Ctx.CacheContext()
+					var gerr error
+					if res := hx.Try(func() error { _, gerr = app.MsgServiceRouter().Handler(m)(cctx, m); return nil }); res == "ok" && gerr == nil {
+						tc.govOk = 1
+					}
+				}
+				cases = append(cases, tc)
+			}
+			other := authtypes.NewModuleAddress(moduleNames[it%len(moduleNames)]).String()
+			if other == gov {
+				other = authtypes.NewModuleAddress("erc20").String()
+			}
+			tw.txStream(rng, cases, junk(rng), other)
+			tw.propStream(rng, cases[:2], junk(rng), other)
+		}
 	}
 }
 
